@@ -285,7 +285,7 @@ func TestC12Client(t *testing.T) {
 			}
 			return true
 		}
-		reps := pick(14, 420)
+		reps := pick(24, 420)
 		for _, kind := range kinds {
 			for rep := 0; rep < reps; rep++ {
 				if kind == "none" && rep > 2 {
